@@ -165,8 +165,11 @@ def gen_workload(rng):
   if rng.random() < 0.2:
     conf["custom"]["protocols"] = True
   rng.random()  # (report_errors=False is a user request NOT to check; never drawn)
-  return {"root": root, "out": outdir, "modules": modules, "edges": edges,
-          "dup_edges": dup, "inputs": inputs, "conf": conf}
+  wl = {"root": root, "out": outdir, "modules": modules, "edges": edges,
+        "dup_edges": dup, "inputs": inputs, "conf": conf}
+  if rng.random() < 0.2:
+    wl["thin_cycle_deps"] = rng.randrange(1 << 30)
+  return wl
 
 
 # ---------------------------------------------------------------------------
@@ -233,6 +236,8 @@ def run_planner(wl, fs=None, graph=None, conf=None):
     with simfs.Installed(fs):
       fs.makedirs(conf.output)
       deps = runner_mod.deps_from_import_graph(graph)
+      if wl.get("thin_cycle_deps") is not None:
+        deps = _thin_cycle_deps(deps, wl["thin_cycle_deps"])
       runner = runner_mod.PytypeRunner(conf, deps)
       files = runner.setup_build()
   finally:
@@ -249,6 +254,29 @@ def run_planner(wl, fs=None, graph=None, conf=None):
   p.ninja_text = fs.get_text(runner.ninja_file) if fs.has(runner.ninja_file) else None
   p.default_pyi = os.path.join(runner.imports_dir, "default.pyi")
   return p
+
+
+def _thin_cycle_deps(deps, seed):
+  """PytypeRunner's own interface (sorted_sources) also accepts dependents
+  that name only SOME members of an import cycle (upstream's runner tests
+  build such inputs by hand; importlab itself always hands over the whole
+  cycle). Thin the dependencies on foreign cycles to a seeded non-empty
+  subset of their members."""
+  rr = random.Random(seed)
+  cycles = [set(group) for group, _ in deps if len(group) > 1]
+  out = []
+  for group, d in deps:
+    own = set(group)
+    d = list(d)
+    for cyc in cycles:
+      if cyc & own:
+        continue
+      inside = [m for m in d if m in cyc]
+      if len(inside) >= 2:
+        keep = set(rr.sample(inside, rr.randrange(1, len(inside))))
+        d = [m for m in d if m not in cyc or m in keep]
+    out.append((group, tuple(d)))
+  return out
 
 
 class Step:
